@@ -58,6 +58,15 @@ type recorder struct {
 	trace   []prim
 	capture bool
 	bad     string // first inconsistency between the events and the real files
+	dir     string // the real directory, compared with the shadow after every event
+	live    []liveImage
+}
+
+// liveImage is the real directory at an event of the captured operation where it differed from the shadow: a change
+// to the files that no hook reported (the crash images built from the trace cannot contain it).
+type liveImage struct {
+	k     int
+	files map[string]*shadowFile
 }
 
 var rec *recorder
@@ -143,11 +152,41 @@ func hookEvent(kind, fname string, offset int64, data []byte) {
 		p = prim{kind: "write", file: base, off: r.pos[base], data: append([]byte(nil), d...)}
 		r.pos[base] += len(d)
 	default: // close, ro-seek-start, step: no effect on the files
+		r.liveCheck(kind + " " + base)
 		return
 	}
 	applyPrim(r.files, p)
 	if r.capture {
 		r.trace = append(r.trace, p)
+	}
+	r.liveCheck(kind + " " + base)
+}
+
+// liveCheck: every hook is called after its file operation, so after each event the files equal the shadow. Where they
+// do not, the store changed a file without reporting it; while the last operation is captured the directory as it is
+// then is kept as one more crash image (k completed primitives, variant L).
+func (r *recorder) liveCheck(at string) {
+	if r.dir == "" {
+		return
+	}
+	entries, _ := os.ReadDir(r.dir)
+	differs := ""
+	real := map[string]*shadowFile{}
+	for _, e := range entries {
+		d, _ := os.ReadFile(filepath.Join(r.dir, e.Name()))
+		real[e.Name()] = &shadowFile{data: d, dur: d}
+		if f := r.files[e.Name()]; f != nil && !bytes.Equal(f.data, d) && differs == "" {
+			differs = e.Name()
+		}
+	}
+	if differs == "" {
+		return
+	}
+	if r.bad == "" {
+		r.bad = "unreported change to " + differs + " seen at event " + at
+	}
+	if r.capture && len(r.live) < 4 {
+		r.live = append(r.live, liveImage{k: len(r.trace), files: real})
 	}
 }
 
@@ -271,7 +310,7 @@ func runCrashFile(l List) Sx {
 	dir := caseDir("crash")
 	defer os.RemoveAll(dir)
 
-	rec = &recorder{files: map[string]*shadowFile{}, pos: map[string]int{}}
+	rec = &recorder{files: map[string]*shadowFile{}, pos: map[string]int{}, dir: dir}
 	defer func() { rec = nil }()
 	r := rec
 	ff := file.NewStoreFactory(fileSettings(dir, true))
@@ -328,6 +367,9 @@ func runCrashFile(l List) Sx {
 				images = append(images, L(L(Int(k), Int(j), Sym("A")), observeImage(part, false, keys, pb)))
 			}
 		}
+	}
+	for _, li := range r.live {
+		images = append(images, L(L(Int(li.k), Int(0), Sym("L")), observeImage(li.files, false, keys, pb)))
 	}
 	return L(L(Sym("trace"), tr), L(Sym("shadow"), Bool(r.bad == "")), L(Sym("images"), images))
 }
